@@ -172,11 +172,12 @@ struct SharedFrom
 {
   template <typename C> std::shared_ptr<W> operator()(C &c) { return std::make_shared<W>(c); }
 };
+static bool retbad = false;   // some operator= did not return *this
 template <typename W>
 struct AssignFrom
 {
   W &w;
-  template <typename C> void operator()(C &c) { w = c; }
+  template <typename C> void operator()(C &c) { if (&(w = c) != &w) retbad = true; }
 };
 
 // ------------------------------------------------------------------ wrapper slots
@@ -188,6 +189,7 @@ struct Slot
   OwnedArray<T> *o{nullptr};
   std::shared_ptr<FixedArray<T>> f;
   FixedArrayView<T> *w{nullptr};
+  long voff{0};         // V aimed at a source container: element offset of data() inside it
   int vk{-1}, vgen{0};  // V: which source (and which generation of it) the view was aimed at; -2: a wrapper's storage
   AbstractArray<T> *base()
   {
@@ -245,7 +247,7 @@ struct Machine
     std::ostringstream o;
     size_t n = a.size();
     bool isnull = a.data() == nullptr;
-    bool atok = true, itok = true;
+    bool atok = true, itok = true, addrok = true, aliasok = true;
     o << s.kind << n << (isnull ? "z" : "p") << "[";
     auto throws = [&](size_t i) {
       try { a.at(i); } catch (const std::runtime_error &) { return true; }
@@ -271,10 +273,31 @@ struct Machine
       for (const T *p = a.cbegin(); p != a.cend() && cc < n + 8; ++p) ++cc;
       if (cc != n) itok = false;
       for (size_t i = 0; i < n; ++i) {
-        try { if (&a.at(i) != &a[i]) atok = false; } catch (const std::runtime_error &) { atok = false; }
+        try { if (&a.at(i) != &a[i] || &a[i] != a.data() + i) addrok = false; } catch (const std::runtime_error &) { atok = false; }
+      }
+      // a view over a source container designates the container's own cells
+      if (s.kind == 'V' && s.vk >= 0 && n > 0 && a.data() != src[s.vk].data() + s.voff) addrok = false;
+      if (n > 0) {
+        // two references (and the iterators) held at once across further accessor calls, then a write to the
+        // underlying cell: what is seen through the held reference follows the source
+        T &r0 = a[0];
+        T &rl = a.at(n - 1);
+        T *pb = a.begin();
+        const T *pe = a.cend();
+        (void)a.size(); (void)a.data(); (void)a.end(); (void)a[n / 2];
+        if (&r0 != a.data() || &rl != a.data() + (n - 1) || pb != a.data() || pe != a.data() + n) addrok = false;
+        T *cell = (s.kind == 'V' && s.vk >= 0) ? src[s.vk].data() + s.voff : a.data();
+        const T saved0 = cell[0], savedl = cell[n - 1];
+        cell[n - 1] = Codec<T>::enc(203);
+        if (Codec<T>::dec(rl) != 203 || Codec<T>::dec(*(pb + (n - 1))) != 203) aliasok = false;
+        cell[n - 1] = savedl;
+        cell[0] = Codec<T>::enc(202);
+        if (Codec<T>::dec(r0) != 202 || Codec<T>::dec(*pb) != 202) aliasok = false;
+        cell[0] = saved0;
+        if (n > 1 && Codec<T>::dec(rl) != Codec<T>::dec(savedl)) aliasok = false;
       }
     }
-    o << "]" << (atok ? "" : "!AT") << (itok ? "" : "!IT");
+    o << "]" << (atok ? "" : "!AT") << (itok ? "" : "!IT") << (addrok ? "" : "!ADDR") << (aliasok ? "" : "!ALIAS");
     return o.str();
   }
 
@@ -308,11 +331,12 @@ struct Machine
   }
 
   // resolve a (data, n) argument taken from wrapper j: w_j.data() + off
-  bool resolveWrap(long j, long off, long n, T *&p, int &vk, int &vgen)
+  bool resolveWrap(long j, long off, long n, T *&p, int &vk, int &vgen, long &voff)
   {
+    voff = 0;
     if (!used(j) || stale(sl[j]) || off < 0 || n < 0 || (size_t)(off + n) > sl[j].base()->size()) return false;
     p = sl[j].base()->data() + off;
-    if (sl[j].kind == 'V') { vk = sl[j].vk; vgen = sl[j].vgen; } else { vk = -2; vgen = 0; }
+    if (sl[j].kind == 'V') { vk = sl[j].vk; vgen = sl[j].vgen; voff = sl[j].voff + off; } else { vk = -2; vgen = 0; }
     return true;
   }
 
@@ -320,7 +344,7 @@ struct Machine
   {
     d.kind = s.kind;
     switch (s.kind) {
-    case 'V': d.v = mv ? new ArrayView<T>(std::move(*s.v)) : new ArrayView<T>(*s.v); d.vk = s.vk; d.vgen = s.vgen; break;
+    case 'V': d.v = mv ? new ArrayView<T>(std::move(*s.v)) : new ArrayView<T>(*s.v); d.vk = s.vk; d.vgen = s.vgen; d.voff = s.voff; break;
     case 'O': d.o = mv ? new OwnedArray<T>(std::move(*s.o)) : new OwnedArray<T>(*s.o); break;
     case 'F': d.f = mv ? std::make_shared<FixedArray<T>>(std::move(*s.f)) : std::make_shared<FixedArray<T>>(*s.f); break;
     case 'W': d.w = mv ? new FixedArrayView<T>(std::move(*s.w)) : new FixedArrayView<T>(*s.w); break;
@@ -329,10 +353,11 @@ struct Machine
   void assignInto(Slot<T> &d, Slot<T> &s, bool mv)
   {
     switch (s.kind) {
-    case 'V': if (mv) *d.v = std::move(*s.v); else *d.v = *s.v; d.vk = s.vk; d.vgen = s.vgen; break;
-    case 'O': if (mv) *d.o = std::move(*s.o); else *d.o = *s.o; break;
-    case 'F': if (mv) *d.f = std::move(*s.f); else *d.f = *s.f; break;
-    case 'W': if (mv) *d.w = std::move(*s.w); else *d.w = *s.w; break;
+    // operator= returns *this
+    case 'V': if (&(mv ? (*d.v = std::move(*s.v)) : (*d.v = *s.v)) != d.v) retbad = true; d.vk = s.vk; d.vgen = s.vgen; d.voff = s.voff; break;
+    case 'O': if (&(mv ? (*d.o = std::move(*s.o)) : (*d.o = *s.o)) != d.o) retbad = true; break;
+    case 'F': if (&(mv ? (*d.f = std::move(*s.f)) : (*d.f = *s.f)) != d.f.get()) retbad = true; break;
+    case 'W': if (&(mv ? (*d.w = std::move(*s.w)) : (*d.w = *s.w)) != d.w) retbad = true; break;
     }
   }
 
@@ -378,7 +403,7 @@ struct Machine
       Slot<T> &s = sl[i];
       s.kind = kd;
       switch (kd) {
-      case 'V': s.v = applySrc(src[k], NewFrom<ArrayView<T>>()); s.vk = (int)k; s.vgen = src[k].gen; break;
+      case 'V': s.v = applySrc(src[k], NewFrom<ArrayView<T>>()); s.vk = (int)k; s.vgen = src[k].gen; s.voff = 0; break;
       case 'O': s.o = applySrc(src[k], NewFrom<OwnedArray<T>>()); break;
       case 'F': s.f = applySrc(src[k], SharedFrom<FixedArray<T>>()); break;
       }
@@ -393,7 +418,7 @@ struct Machine
       Slot<T> &s = sl[i];
       s.kind = kd;
       switch (kd) {
-      case 'V': s.v = new ArrayView<T>(make_ArrayView(p, n)); s.vk = vk; s.vgen = vk >= 0 ? src[vk].gen : 0; break;   // the namespace-level factory
+      case 'V': s.v = new ArrayView<T>(make_ArrayView(p, n)); s.vk = vk; s.vgen = vk >= 0 ? src[vk].gen : 0; s.voff = L(4); break;   // the namespace-level factory
       case 'O': s.o = new OwnedArray<T>(p, n); break;
       case 'F': s.f = std::make_shared<FixedArray<T>>(p, n); break;
       }
@@ -402,13 +427,13 @@ struct Machine
     if (op == "pw") {
       long i = L(1);
       char kd = f[2][0];
-      T *p; int vk, vgen;
-      if (!resolveWrap(L(3), L(4), L(5), p, vk, vgen) || !freeSlot(i) || kd == 'W') return false;
+      T *p; int vk, vgen; long voff;
+      if (!resolveWrap(L(3), L(4), L(5), p, vk, vgen, voff) || !freeSlot(i) || kd == 'W') return false;
       size_t n = (size_t)L(5);
       Slot<T> &s = sl[i];
       s.kind = kd;
       switch (kd) {
-      case 'V': s.v = new ArrayView<T>(p, n); s.vk = vk; s.vgen = vgen; break;
+      case 'V': s.v = new ArrayView<T>(p, n); s.vk = vk; s.vgen = vgen; s.voff = voff; break;
       case 'O': s.o = new OwnedArray<T>(p, n); break;
       case 'F': s.f = std::make_shared<FixedArray<T>>(p, n); break;
       }
@@ -416,10 +441,10 @@ struct Machine
     }
     if (op == "rw") {
       long i = L(1);
-      T *p; int vk, vgen;
-      if (!resolveWrap(L(2), L(3), L(4), p, vk, vgen) || !used(i)) return false;
+      T *p; int vk, vgen; long voff;
+      if (!resolveWrap(L(2), L(3), L(4), p, vk, vgen, voff) || !used(i)) return false;
       size_t n = (size_t)L(4);
-      if (sl[i].kind == 'V') { sl[i].v->reset(p, n); sl[i].vk = vk; sl[i].vgen = vgen; return true; }
+      if (sl[i].kind == 'V') { sl[i].v->reset(p, n); sl[i].vk = vk; sl[i].vgen = vgen; sl[i].voff = voff; return true; }
       if (sl[i].kind == 'O') { sl[i].o->reset(p, n); return true; }
       return false;
     }
@@ -445,7 +470,7 @@ struct Machine
       if (!liveSrc(k) || !used(i) || sl[i].kind == 'W') return false;
       Slot<T> &s = sl[i];
       switch (s.kind) {
-      case 'V': applySrc(src[k], AssignFrom<ArrayView<T>>{*s.v}); s.vk = (int)k; s.vgen = src[k].gen; break;
+      case 'V': applySrc(src[k], AssignFrom<ArrayView<T>>{*s.v}); s.vk = (int)k; s.vgen = src[k].gen; s.voff = 0; break;
       case 'O': applySrc(src[k], AssignFrom<OwnedArray<T>>{*s.o}); break;
       case 'F': applySrc(src[k], AssignFrom<FixedArray<T>>{*s.f}); break;
       }
@@ -463,7 +488,7 @@ struct Machine
       T *p; int vk;
       if (!resolve(f[2], L(3), L(4), p, vk) || !used(i)) return false;
       size_t n = (size_t)L(4);
-      if (sl[i].kind == 'V') { sl[i].v->reset(p, n); sl[i].vk = vk; sl[i].vgen = vk >= 0 ? src[vk].gen : 0; return true; }
+      if (sl[i].kind == 'V') { sl[i].v->reset(p, n); sl[i].vk = vk; sl[i].vgen = vk >= 0 ? src[vk].gen : 0; sl[i].voff = L(3); return true; }
       if (sl[i].kind == 'O') { sl[i].o->reset(p, n); return true; }
       return false;
     }
@@ -522,7 +547,8 @@ static std::string runH(const std::vector<std::string> &ops)
   bool first = true;
   for (auto &tok : ops) {
     bool ok = m.step(tok);
-    out << (first ? "" : " ; ") << (ok ? "ok|" : "skip|") << m.dump();
+    out << (first ? "" : " ; ") << (ok ? "ok|" : "skip|") << m.dump() << (retbad ? "!RET" : "");
+    retbad = false;
     first = false;
   }
   return out.str();
@@ -551,7 +577,8 @@ static std::string runD(size_t off, size_t stride, const std::vector<long> &byte
   DataView<T> dv = (stride == sizeof(T)) ? DataView<T>(buf.get() + off) : DataView<T>(buf.get() + off, stride);
   DataView<T> dv2;
   if (stride == sizeof(T)) dv2.reset(buf.get() + off); else dv2.reset(buf.get() + off, stride);
-  bool first = true;
+  bool first = true, addrok = true, heldok = true, aliasok = true;
+  std::vector<size_t> inrange;
   for (long i : idxs) {
     o << (first ? "" : " ");
     first = false;
@@ -563,7 +590,25 @@ static std::string runD(size_t off, size_t stride, const std::vector<long> &byte
     static const char *hx = "0123456789abcdef";
     for (size_t j = 0; j < sizeof(T); ++j) o << hx[tmp[j] >> 4] << hx[tmp[j] & 15];
     if (std::memcmp(tmp, tmp2, sizeof(T)) != 0) o << "!RESET";
+    // operator[] returns a reference to the element INSIDE the wrapped range
+    if (reinterpret_cast<const unsigned char *>(&r) != buf.get() + off + (size_t)i * stride) addrok = false;
+    inrange.push_back((size_t)i);
   }
+  if (!inrange.empty()) {
+    // two references held at once (std::max(v[a], v[b]) does that), then a write to the source under a held reference
+    size_t i0 = inrange.front(), i1 = inrange.back();
+    const T &r0 = dv[i0];
+    const T &r1 = dv[i1];
+    unsigned char *p0 = buf.get() + off + i0 * stride, *p1 = buf.get() + off + i1 * stride;
+    if (std::memcmp(&r0, p0, sizeof(T)) != 0 || std::memcmp(&r1, p1, sizeof(T)) != 0) heldok = false;
+    p0[0] ^= 0xff;
+    if (std::memcmp(&r0, p0, sizeof(T)) != 0) aliasok = false;
+    p0[0] ^= 0xff;
+    p1[sizeof(T) - 1] ^= 0x55;
+    if (std::memcmp(&r1, p1, sizeof(T)) != 0) aliasok = false;
+    p1[sizeof(T) - 1] ^= 0x55;
+  }
+  o << (addrok ? "" : "!ADDR") << (heldok ? "" : "!HELD") << (aliasok ? "" : "!ALIAS");
   return o.str();
 }
 
